@@ -9,7 +9,7 @@
    (model/Rules.v). *)
 From Coq Require Import List NArith ZArith Bool.
 From MevVerif Require Import lib.Bytes model.Rules model.ProviderSvc proofs.ProviderSvc_proofs.
-From MevVerif Require check.Check_C12 proofs.Check_C12_proofs.
+From MevVerif Require check.Check_C12 proofs.Check_C12_proofs proofs.Check_C12_fields.
 Import ListNotations.
 Open Scope N_scope.
 
@@ -131,16 +131,19 @@ Proof. exact (deliveries_le_decisions rules_validators). Qed.
 Print Assumptions C12_deliveries_le_decisions.
 
 (* The property checker of the correspondence (check/Check_C12.v) raises no alarm on the model's own
-   prediction -- partial: proved for the clause "forwarded-invalid" and for the at-most-once half of
-   "fields-differ"; for the clauses double-delivery, stream-ended, leak and decision-dropped the absence of
-   false alarms rests on the runs (no theorem yet).  The checker's own bookkeeping now registers an expected
-   delivery at the callback half of a decision and lets a parked or ended stream read nothing, as the machine
-   does (the two counterexamples of the second audit evaluate to no alarm). *)
+   prediction, for EVERY op list -- proved for three of its six clauses: "forwarded-invalid", "fields-differ"
+   (each forwarded bid is the bid of the first submission of that call, every call forwarded at most once)
+   and "stream-ended" (a predicted stream end always has its cause among the ops, the model never panics).
+   Still open (partial): the clauses "double-delivery", "leak" and "decision-dropped"; for these the absence
+   of false alarms rests on the runs.  The checker's own bookkeeping registers an expected delivery at the
+   callback half of a decision and lets a parked or ended stream read nothing, as the machine does. *)
 Theorem C12_checker_accepts_model_partial : forall i l,
   Check_C12.chk_forwarded_valid (Check_C12_proofs.model_case i l) = true /\
-  Check_C12.nodupb (map fst (Check_C12.o_emitted (Check_C12.ob (Check_C12_proofs.model_case i l)))) = true.
+  Check_C12.chk_fields (Check_C12_proofs.model_case i l) = true /\
+  Check_C12.chk_stream (Check_C12_proofs.model_case i l) = true.
 Proof.
   exact (fun i l => conj (Check_C12_proofs.checker_accepts_model_forwarded i l)
-                         (Check_C12_proofs.checker_accepts_model_forward_once i l)).
+                   (conj (Check_C12_fields.checker_accepts_model_fields i l)
+                         (Check_C12_fields.checker_accepts_model_stream i l))).
 Qed.
 Print Assumptions C12_checker_accepts_model_partial.
